@@ -74,16 +74,27 @@ class Checker:
             self.cache[k] = self.Dec(preferred_units={getattr(self.PQ, q): u for q, u in prefs.items()})
         return self.cache[k]
 
-    def check(self, d, payload, nbytes, prefs):
+    def _deliver(self, dec, d, payload, nbytes, via, seq):
+        if via == "combined":
+            return dec.decode_basic_string(gen.basic_string(d.pgn, payload, nbytes), already_combined=True)
+        # frame by frame through the EByte entry point (fast-packet reassembly path)
+        from .. import wire
+        i = wire.ident(d.pgn, 1, 255, 3)
+        r = None
+        for fr in wire.segment(payload.to_bytes(nbytes, "little")[:223], seq):
+            r = dec.decode_tcp(wire.ebyte(i, fr))
+        return r
+
+    def check(self, d, payload, nbytes, prefs, via="combined"):
         ctx = self.ctx
-        line = gen.basic_string(d.pgn, payload, nbytes)
-        case = {"definition": d.key, "payload_hex": payload.to_bytes(nbytes, "little").hex(), "preferences": prefs}
+        case = {"definition": d.key, "payload_hex": payload.to_bytes(nbytes, "little").hex(), "preferences": prefs, "via": via}
+        self.seq = (getattr(self, "seq", 0) + 1) % 8
         try:
-            a = self.base.decode_basic_string(line, already_combined=True)
+            a = self._deliver(self.base, d, payload, nbytes, via, self.seq)
         except Exception:
             a = None
         try:
-            b = self.decoder(prefs).decode_basic_string(line, already_combined=True)
+            b = self._deliver(self.decoder(prefs), d, payload, nbytes, via, self.seq)
             berr = None
         except Exception as e:
             b, berr = None, e
@@ -160,6 +171,11 @@ def _work(ctx: Ctx, item):
             res, nontrivial = ck.check(d, payload, nbytes, prefs)
             if nontrivial:
                 ctx.nt((d.key, payload, tuple(sorted(prefs.items()))))
+            if d.fast and nbytes <= 223:
+                ctx.count()
+                ctx.klass("frame_wise_delivery")
+                res2, _ = ck.check(d, payload, nbytes, prefs, via="frames")
+                res += [(b + "|frames", w, c) for b, w, c in res2 if not any(b == b0 for b0, _, _ in res)]
             return res
 
         ctx.notes.setdefault("quantity_fields_visited", set()).update((d.key, f.id) for f in d.fields if f.pq)
@@ -194,5 +210,5 @@ def replay(ctx: Ctx, case):
     ck = Checker(ctx)
     d = canboat.db().by_key[case["definition"]]
     data = bytes.fromhex(case["payload_hex"])
-    res, _ = ck.check(d, int.from_bytes(data, "little"), len(data), case["preferences"])
-    return res
+    res, _ = ck.check(d, int.from_bytes(data, "little"), len(data), case["preferences"], case.get("via", "combined"))
+    return [(b + "|frames", w, c) for b, w, c in res] if case.get("via") == "frames" else res
